@@ -12,6 +12,7 @@
 //	rep   Bridge.reportTrafficStats under a forced interleaving (gated CloudControl)
 //	brg   Bridge.Close, cleanup report racing the periodic goroutine's final report
 //	sp    StreamProcessor.Close against an in-flight ReadPacket/WritePacket (gated transport)
+//	api   every plain-argument exported method of a component on a fresh instance: open vs closed / closing — no new panic
 //	rm    dispose.ResourceManager: Register / DisposeAll from many goroutines, then the last DisposeAll
 //	rep2  several bridges of one mapping reporting to the same record (known finding: overlapping reports lose a delta)
 //	cst   client mapping handler: reportStats ticks / calls / failing calls racing the final report on Close (TrackTraffic gated)
@@ -68,6 +69,8 @@ func exec(caseStr string) (obs string) {
 			return runBat(t)
 		case "cst":
 			return runCst(t)
+		case "api":
+			return runApi(t)
 		case "rep2":
 			return runRep2(t)
 		case "rm":
@@ -294,6 +297,12 @@ func gen(out *vc.Out, r *vc.Rand, thorough bool) {
 		emit(out, "", fmt.Sprintf("sp op z chunks 0 cut -1 n %d rep %d %s", n, 20*mul, ms()))
 	}
 	emit(out, "", fmt.Sprintf("sp op z chunks 0 cut -1 n 16 rep %d %s", 50*mul, ms()))
+
+	// api: every plain-argument exported method of every managed component, after and during Close
+	for _, kind := range []string{"sm", "st", "sp", "br", "tn", "tm"} {
+		emit(out, "", fmt.Sprintf("api kind %s when after rep 1 %s", kind, ms()))
+		emit(out, "", fmt.Sprintf("api kind %s when during rep %d %s", kind, mul, ms()))
+	}
 
 	// rm: ResourceManager — every multiset of ≤ 4 concurrent Register / DisposeAll calls on 0–2 resources
 	for pre := 0; pre <= 2; pre++ {
